@@ -5,6 +5,7 @@ asked to emit / compile (and at which try depth)."""
 UNIT = dict(
   name='compilerd',
   properties=['C04'],
+  prelude_files=['prelude.rs', 'prelude_catch_stub.rs'],
   items=[
     ('laythe_vm/src/byte_code.rs', ['struct Label', ('impl Label', ['new', 'val']), 'enum CaptureIndex', 'enum SymbolicByteCode']),
     ('laythe_core/src/object/fun.rs', ['enum FunKind']),
